@@ -64,7 +64,7 @@ MIN_OBS = {
                  'position_checks': 70000, 'parents_set': 6000},
 }
 SHARD_TIMEOUT = {'quick': 600, 'thorough': 5400}
-N_RANDOM = {'quick': 2000, 'thorough': 15000}
+N_RANDOM = {'quick': 2000, 'thorough': 400000}
 WHAT_FAILS = {
     'parent-is-also-child': 'the parent peer object is also in the list of children',
     'parent-or-child-connection-dead': 'parent or child whose connection is not open at a quiescent moment',
